@@ -393,3 +393,138 @@ Section WithOracle.
     intros HF. apply dc_shuffle_from_spec; [exact HF|]. intros k p H. discriminate.
   Qed.
 End WithOracle.
+
+(* ====================================================================== *)
+(* Consequences of the structural form *)
+(* ====================================================================== *)
+Lemma dc_struct_perm rv ss t d : dc_sites_ok ss t -> dc_decoy_struct rv ss t d -> Permutation d t.
+Proof.
+  intros (r & -> & Hch) (r' & qs & E & HF & ->). inversion E; subst r'.
+  rewrite <- (dc_cut_concat r 0 t Hch).
+  remember (dc_cut 0 r t) as ps0 eqn:Eps. clear Eps.
+  induction HF as [|p q ps qs Hpq HF IH]; [apply Permutation_refl|].
+  cbn [concat]. apply Permutation_app; [eapply dc_pep_decoy_perm; exact Hpq | exact IH].
+Qed.
+
+Lemma dc_struct_spec rv ss t d : dc_sites_ok ss t -> dc_decoy_struct rv ss t d -> dc_decoy_spec rv ss t d.
+Proof.
+  intros Hok Hs. split.
+  - apply Permutation_length. eapply dc_struct_perm; eassumption.
+  - destruct Hok as (r & -> & Hch). destruct Hs as (r' & qs & E & HF & ->). inversion E; subst r'.
+    intros x y Hc.
+    apply (dc_cut_consecutive (dc_pep_decoy rv) (dc_pep_decoy_length rv) r 0 t qs [] [] x y
+             eq_refl eq_refl Hch HF Hc).
+Qed.
+
+(* index-level consequences of the declarative specification *)
+Lemma dc_spec_termini rv ss t d x y :
+  dc_sites_ok ss t -> dc_decoy_spec rv ss t d -> dc_consecutive ss x y -> x < y ->
+  nth_error d x = nth_error t x /\ nth_error d (y - 1) = nth_error t (y - 1).
+Proof.
+  intros (r & -> & Hch) [Hlen Hsp] Hc Hxy.
+  destruct (dc_consecutive_bound r 0 (length t) x y Hch Hc) as (_ & _ & Hy).
+  destruct (dc_pep_decoy_ends _ _ _ (Hsp x y Hc)) as [H0 H1].
+  rewrite (dc_pyslice_length t x y Hy) in H1.
+  rewrite !dc_nth_error_pyslice in H0 by lia.
+  rewrite !dc_nth_error_pyslice in H1 by lia.
+  rewrite Nat.add_0_r in H0. replace (x + (y - x - 1)) with (y - 1) in H1 by lia.
+  split; assumption.
+Qed.
+
+Lemma dc_spec_reverse ss t d x y :
+  dc_sites_ok ss t -> dc_decoy_spec true ss t d -> dc_consecutive ss x y ->
+  pyslice d (S x) (y - 1) = rev (pyslice t (S x) (y - 1)).
+Proof.
+  intros (r & -> & Hch) [Hlen Hsp] Hc.
+  destruct (dc_consecutive_bound r 0 (length t) x y Hch Hc) as (_ & _ & Hy).
+  destruct (Hsp x y Hc) as [[Hs Hq]|(a & mid & mid' & z & Hp & Hq & _ & Hr)].
+  - rewrite (dc_pyslice_length t x y Hy) in Hs.
+    unfold pyslice. replace (y - 1 - S x) with 0 by lia. reflexivity.
+  - rewrite (dc_pyslice_interior t x y a mid z Hy Hp).
+    rewrite (dc_pyslice_interior d x y a mid' z) by (try rewrite Hlen; assumption).
+    apply Hr. reflexivity.
+Qed.
+
+Lemma dc_spec_peptide_perm rv ss t d x y :
+  dc_decoy_spec rv ss t d -> dc_consecutive ss x y -> Permutation (pyslice d x y) (pyslice t x y).
+Proof. intros [_ Hsp] Hc. eapply dc_pep_decoy_perm. apply Hsp. exact Hc. Qed.
+
+(* ====================================================================== *)
+(* Residue-class enzymes *)
+(* ====================================================================== *)
+Lemma dc_match_ends_chain cls s : forall a,
+  dc_chain a (dc_match_ends cls a s ++ [a + length s]) (a + length s).
+Proof.
+  induction s as [|c r IH]; intros a.
+  - cbn. split; [lia|reflexivity].
+  - cbn [dc_match_ends length]. replace (a + S (length r)) with (S a + length r) by lia.
+    destruct (dc_in_cls cls c).
+    + cbn [app dc_chain]. split; [lia|apply IH].
+    + apply dc_chain_weaken with (a' := S a); [lia| |apply IH].
+      intros H. apply app_eq_nil in H. destruct H as [_ H]. discriminate.
+Qed.
+
+Lemma dc_sites_sites_ok cls s : dc_sites_ok (dc_sites cls s) s.
+Proof. exists (dc_match_ends cls 0 s ++ [length s]). split; [reflexivity|]. apply (dc_match_ends_chain cls s 0). Qed.
+
+(* inside a peptide of a residue-class enzyme only the last residue can belong to the class *)
+Lemma dc_cut_class cls s : forall a,
+  Forall (fun p => Forall (fun c => dc_in_cls cls c = false) (removelast p))
+         (dc_cut a (dc_match_ends cls a s ++ [a + length s]) s).
+Proof.
+  induction s as [|c r IH]; intros a.
+  - cbn. constructor; [|constructor]. rewrite firstn_nil. constructor.
+  - cbn [dc_match_ends length]. replace (a + S (length r)) with (S a + length r) by lia.
+    specialize (IH (S a)). pose proof (dc_match_ends_chain cls r (S a)) as Hch.
+    destruct (dc_in_cls cls c) eqn:E.
+    + cbn [app dc_cut]. replace (S a - a) with 1 by lia. cbn [firstn skipn].
+      constructor; [constructor | exact IH].
+    + destruct (dc_match_ends cls (S a) r ++ [S a + length r]) as [|b L] eqn:EL.
+      { apply app_eq_nil in EL. destruct EL as [_ EL]. discriminate. }
+      destruct Hch as [Hb _]. cbn [dc_cut] in *.
+      replace (b - a) with (S (b - S a)) by lia. cbn [firstn skipn].
+      inversion IH as [|? ? Hp HL]; subst. constructor; [|exact HL].
+      destruct (firstn (b - S a) r) as [|y p0] eqn:Ep; [constructor|].
+      change (removelast (c :: y :: p0)) with (c :: removelast (y :: p0)).
+      constructor; [exact E | exact Hp].
+Qed.
+
+Lemma dc_match_ends_flags cls : forall (s s' : str) a,
+  map (dc_in_cls cls) s' = map (dc_in_cls cls) s -> dc_match_ends cls a s' = dc_match_ends cls a s.
+Proof.
+  induction s as [|c r IH]; intros [|c' r'] a H; try discriminate; [reflexivity|].
+  cbn [map] in H. inversion H as [[Hc Hr]]. cbn [dc_match_ends]. rewrite Hc, (IH r' (S a) Hr). reflexivity.
+Qed.
+
+Lemma dc_pep_decoy_flags cls rv p q :
+  Forall (fun c => dc_in_cls cls c = false) (removelast p) -> dc_pep_decoy rv p q ->
+  map (dc_in_cls cls) q = map (dc_in_cls cls) p.
+Proof.
+  intros Hp [[_ ->]|(x & mid & mid' & z & -> & -> & HP & _)]; [reflexivity|].
+  change (x :: mid ++ [z]) with ((x :: mid) ++ [z]) in Hp. rewrite removelast_last in Hp.
+  inversion Hp as [|? ? _ Hmid]; subst.
+  assert (Hmid' : Forall (fun c => dc_in_cls cls c = false) mid').
+  { rewrite Forall_forall in *. intros c Hc. apply Hmid. apply (Permutation_in _ HP). exact Hc. }
+  assert (Hrep : forall l, Forall (fun c => dc_in_cls cls c = false) l ->
+                           map (dc_in_cls cls) l = repeat false (length l)).
+  { induction l as [|c l IHl]; intros Hl; [reflexivity|]. inversion Hl; subst. cbn. f_equal; auto. }
+  cbn [map]. rewrite !map_app, (Hrep _ Hmid), (Hrep _ Hmid'), (Permutation_length HP). reflexivity.
+Qed.
+
+(* the cleavage sites of a residue-class enzyme are identical in target and decoy *)
+Lemma dc_struct_sites_same cls rv t d :
+  dc_decoy_struct rv (dc_sites cls t) t d -> dc_sites cls d = dc_sites cls t.
+Proof.
+  intros Hs. pose proof (dc_sites_sites_ok cls t) as Hok.
+  pose proof (Permutation_length (dc_struct_perm _ _ _ _ Hok Hs)) as Hlen.
+  destruct Hs as (r & qs & E & HF & ->). unfold dc_sites in E. inversion E; subst r. clear E.
+  assert (Hflags : map (dc_in_cls cls) (concat qs) = map (dc_in_cls cls) t).
+  { clear Hlen. pose proof (dc_cut_class cls t 0) as Hcls. cbn [Nat.add] in Hcls.
+    destruct Hok as (r & E & Hch). unfold dc_sites in E. inversion E; subst r. clear E.
+    rewrite <- (dc_cut_concat _ 0 t Hch).
+    remember (dc_cut 0 (dc_match_ends cls 0 t ++ [length t]) t) as ps0 eqn:Eps. clear Eps.
+    revert Hcls. induction HF as [|p q ps qs' Hpq HF IH]; intros Hcls; [reflexivity|].
+    inversion Hcls as [|? ? Hp Hps]; subst. cbn [concat]. rewrite !map_app.
+    rewrite (dc_pep_decoy_flags cls rv p q Hp Hpq), (IH Hps). reflexivity. }
+  unfold dc_sites. rewrite Hlen, (dc_match_ends_flags cls t (concat qs) 0 Hflags). reflexivity.
+Qed.
